@@ -230,3 +230,118 @@ Lemma guards_hold_on_writer n rest nval g x :
   n < 2 ^ 31 -> nval <= 8 * g ->
   guard_def 1 n (wr_defs_nonull_v1 n ++ rest) = true /\ guard_idx nval (uleb_enc (2 * g + 1) ++ x) = true.
 Proof. intros H1 H2. split; [exact (guard_def_writer n rest H1)|exact (guard_idx_uleb nval g x H2)]. Qed.
+
+(* ---- the v2 categorical fast path (Impl/RCat.v cat_tail, core.read_data_page_v2 with use_cat) on arbitrary bytes ----------- *)
+From Pq Require Import Impl.RCat.
+
+Lemma guard_idx_sound_ix k nval body hd inp :
+  k_ok k -> 0 < nval -> uleb_dec body = Some (hd, inp) -> guard_idx nval body = true ->
+  bytes_ok inp -> (hd / 2) * 8 * N.of_nat k <= lenN inp ->
+  let cs := chunks_le k (N.to_nat ((hd / 2) * 8)) inp in
+  (exists rest, hyb_dec false (8 * N.of_nat k) nval body = Some (firstn (N.to_nat nval) cs, rest)) /\
+  firstn (k * N.to_nat ((hd / 2) * 8)) inp = wr_codes k cs /\ Forall (fun c => c < 256 ^ N.of_nat k) cs /\
+  length cs = N.to_nat ((hd / 2) * 8) /\ nval <= (hd / 2) * 8.
+Proof.
+  intros K Hn HU G OK LEN. unfold guard_idx in G. rewrite HU in G.
+  apply andb_true_iff in G. destruct G as [ODD COVER]. apply N.leb_le in COVER.
+  set (g := hd / 2) in *.
+  assert (HD : hd = 2 * g + 1).
+  { unfold g. rewrite (N.div_mod hd 2) at 1 by lia. f_equal.
+    rewrite <- N.bit0_mod, N.bit0_odd, ODD. reflexivity. }
+  assert (KP : 0 < N.of_nat k) by (destruct K as [-> | [-> | ->]]; cbn; lia).
+  set (w := 8 * N.of_nat k).
+  destruct (bytes_as_codes k (N.to_nat (g * 8)) inp OK) as (E & F & LN).
+  { rewrite lenN_ok in LEN. lia. }
+  cbn zeta. set (cs := chunks_le k (N.to_nat (g * 8)) inp) in *.
+  assert (TAKE : takeN (g * w) inp = wr_codes k cs).
+  { rewrite takeN_ok, <- E. f_equal. unfold w. lia. }
+  split; [|repeat split; assumption].
+  exists (dropN (g * w) inp).
+  rewrite HD in HU.
+  rewrite (hyb_dec_bp_single_dec w nval g body inp Hn ltac:(lia) HU).
+  - f_equal. f_equal. rewrite TAKE.
+    rewrite (bp_dec_prefix w nval (N.of_nat (length cs))) by lia.
+    rewrite (wr_codes_is_bitpacked k cs F). fold w.
+    rewrite <- (app_nil_r (bp_enc w cs)).
+    rewrite bp_roundtrip; [reflexivity|].
+    eapply Forall_impl; [|exact F]. cbn beta. intros a Ha. unfold w. now rewrite <- pow256.
+  - unfold bp_nbytes, w.
+    replace (nval * (8 * N.of_nat k) + 7) with (7 + (nval * N.of_nat k) * 8) by lia.
+    rewrite N.div_add by lia. change (7 / 8) with 0. nia.
+Qed.
+
+Lemma wr_codes_firstn k m cs : firstn (k * m) (wr_codes k cs) = wr_codes k (firstn m cs).
+Proof.
+  revert cs. induction m as [|m IH]; intros cs.
+  - rewrite Nat.mul_0_r. reflexivity.
+  - destruct cs as [|c cs]; [cbn [firstn]; unfold wr_codes; cbn; now rewrite firstn_nil|].
+    unfold wr_codes. cbn [map concat firstn]. fold (wr_codes k cs). fold (wr_codes k (firstn m cs)).
+    replace (k * S m)%nat with (k + k * m)%nat by lia.
+    rewrite firstn_app, le_enc_length. rewrite firstn_all2 by (rewrite le_enc_length; lia).
+    replace (k + k * m - k)%nat with (k * m)%nat by lia. now rewrite IH.
+Qed.
+
+Theorem cat_tail_selfmade_irrelevant ak maxdef n nn lv bw r :
+  nn <= n ->
+  (guard_idx (n - nn) r = true ->
+     exists hd out, uleb_dec r = Some (hd, out) /\ 0 < n - nn /\ bytes_ok out /\ (hd / 2) * 8 * (bw / 8) <= lenN out) ->
+  cat_tail true ak maxdef (n, nn, lv, bw, r) = cat_tail false ak maxdef (n, nn, lv, bw, r).
+Proof.
+  intros NN HR. unfold cat_tail.
+  destruct ((bw =? 8) || (bw =? 16) || (bw =? 32)) eqn:BW; cbn [andb]; [|reflexivity].
+  destruct (guard_idx (n - nn) r) eqn:G; [|reflexivity].
+  destruct (HR eq_refl) as (hd & out & HU & NP & OK & LEN).
+  assert (KK : exists k, k_ok k /\ bw = 8 * N.of_nat k /\ bw / 8 = N.of_nat k).
+  { apply orb_prop in BW. destruct BW as [BW|BW]; [apply orb_prop in BW; destruct BW as [BW|BW]|]; apply N.eqb_eq in BW; subst bw.
+    - exists 1%nat. repeat split. now left.
+    - exists 2%nat. repeat split. right. now left.
+    - exists 4%nat. repeat split. right. now right. }
+  destruct KK as (k & K & BWK & BK). rewrite BK in *.
+  assert (KP : 0 < N.of_nat k) by (destruct K as [-> | [-> | ->]]; cbn; lia).
+  destruct (guard_idx_sound_ix k (n - nn) r hd out K NP HU G OK LEN) as ((rest & HY) & E & F & LN & COVER).
+  set (g8 := hd / 2 * 8) in *. set (cs := chunks_le k (N.to_nat g8) out) in *.
+  set (nv := n - nn) in *.
+  assert (BZ : negb (bw =? 0) = true) by (subst bw; destruct K as [-> | [-> | ->]]; reflexivity).
+  assert (NZ : negb (nv =? 0) = true) by (apply negb_true_iff, N.eqb_neq; lia).
+  rewrite BZ, NZ. cbn [andb]. rewrite BWK in *. rewrite HY. cbn [rbind].
+  rewrite HU.
+  (* the first nv codes out of the bytes *)
+  assert (PRE : firstn (k * N.to_nat nv) out = wr_codes k (firstn (N.to_nat nv) cs)).
+  { rewrite <- wr_codes_firstn, <- E. rewrite firstn_firstn. f_equal. nia. }
+  assert (LF : length (firstn (N.to_nat nv) cs) = N.to_nat nv) by (rewrite firstn_length; lia).
+  assert (FF : Forall (fun c => c < 256 ^ N.of_nat k) (firstn (N.to_nat nv) cs)).
+  { pose proof F as F2. rewrite <- (firstn_skipn (N.to_nat nv) cs) in F2. apply Forall_app in F2. tauto. }
+  destruct ((lenN out =? n * ak) && (8 * N.of_nat k =? 8 * ak) && (nn =? 0)) eqn:COPY.
+  - (* the bytes are the codes array: no NULL, same item size, exactly n codes *)
+    apply andb_true_iff in COPY. destruct COPY as [COPY N0]. apply andb_true_iff in COPY. destruct COPY as [LO AK].
+    apply N.eqb_eq in LO, AK, N0. assert (AKK : ak = N.of_nat k) by lia. subst ak nn.
+    assert (NV : nv = n) by (unfold nv; lia).
+    assert (KZ : (N.of_nat k =? 0) = false) by (apply N.eqb_neq; lia). rewrite KZ.
+    assert (G8 : g8 = n) by (rewrite lenN_ok in *; nia).
+    assert (ALL : out = wr_codes k cs).
+    { rewrite <- E. symmetry. apply firstn_all2. rewrite lenN_ok in LO. nia. }
+    rewrite NV in *. rewrite firstn_all2 by lia.
+    rewrite ALL at 1. rewrite <- (app_nil_r (wr_codes k cs)).
+    replace (N.to_nat n) with (length cs) by lia.
+    rewrite raw_codes_wr by exact F. cbn [rev app].
+    unfold put_codes. cbn [N.eqb]. rewrite lenN_ok, LN, G8, N2Nat.id, N.eqb_refl. reflexivity.
+  - (* codes of bw bits, as many as the page has values *)
+    assert (TK : takeN (nv * N.of_nat k) out = wr_codes k (firstn (N.to_nat nv) cs)).
+    { rewrite takeN_ok, <- PRE. f_equal. lia. }
+    rewrite TK.
+    assert (LW : lenN (wr_codes k (firstn (N.to_nat nv) cs)) = N.of_nat k * nv) by (rewrite lenN_ok, wr_codes_length, LF; lia).
+    rewrite LW. rewrite N.mul_comm, N.mod_mul by lia. cbn [N.eqb negb].
+    rewrite N.div_mul by lia.
+    rewrite <- (app_nil_r (wr_codes k (firstn (N.to_nat nv) cs))).
+    rewrite <- LF at 1. rewrite raw_codes_wr by exact FF. cbn [rev app]. reflexivity.
+Qed.
+
+(* PAGE level (v2, read as a categorical): with the layout check the `selfmade` flag cannot change the codes returned *)
+Theorem rd_page_v2_cat_selfmade_irrelevant decompress ak cd codec h usize csize payload n nn lv bw r :
+  cat_prefix decompress cd codec h usize csize payload = ROk (n, nn, lv, bw, r) -> nn <= n ->
+  (guard_idx (n - nn) r = true ->
+     exists hd out, uleb_dec r = Some (hd, out) /\ 0 < n - nn /\ bytes_ok out /\ (hd / 2) * 8 * (bw / 8) <= lenN out) ->
+  rd_page_v2_cat decompress true ak cd codec h usize csize payload = rd_page_v2_cat decompress false ak cd codec h usize csize payload.
+Proof.
+  intros P NN HR. unfold rd_page_v2_cat. rewrite P. cbn [rbind]. apply cat_tail_selfmade_irrelevant; assumption.
+Qed.
